@@ -56,6 +56,7 @@ class WorldC10(World):
         self.rs = {}        # id -> real References
         self.members = {}   # id -> list of ref ids (mirror of the list)
         self.fitted = {}    # id -> tuple of ref ids the offsets were last fitted for (None: given offsets)
+        self.plan = []
         self.off_seen = {}  # id -> offsets as last seen (they may change only through the object's own operations)
         self.tg = {}        # id -> real target StatMech
         self.tgm = {}       # id -> {'rs': refs id, 'desc': dict, 'bare': twin without references}
@@ -75,6 +76,29 @@ class WorldC10(World):
     def gen_op(self, rng):
         sw = self.ctx.swarm
         c = rng.randrange(sw['n_clients'])
+        if self.plan:
+            return dict(self.plan.pop(0), c=c)
+        nd = len(sw['descriptors'])
+        if not self.rs and not self.ref and nd >= 2 and rng.random() < 0.15:
+            # scripted: as many references as descriptors, one of them a genuine combination of two others (CH3OH, C2H4 and
+            # C3H8O over C, H, O): square and rank deficient without any duplicated or scaled row
+            ds = list(sw['descriptors'][:rng.randint(2, min(nd, 4))])
+            rows = []
+            for i_ in range(len(ds) - 1):
+                rows.append({d: rng.randint(0, 3) for d in ds})
+                rows[-1][ds[i_ % len(ds)]] = rows[-1][ds[i_ % len(ds)]] or 1
+            a_, b_ = rng.choice([(1, 1), (1, 2), (2, 1)])
+            r1, r2 = rows[0], rows[-1]
+            rows.append({d: a_ * r1.get(d, 0) + b_ * r2.get(d, 0) for d in ds})
+            rows = [{d: n for d, n in r_.items() if n} for r_ in rows]
+            ops = []
+            for i_, comp in enumerate(rows):
+                ops.append({'op': 'mkref', 'args': {'id': i_, 'desc': comp, 'T_ref': 298.15,
+                                                    'HoRT_ref': round(rng.uniform(-200, 20), 4),
+                                                    'E': round(rng.uniform(-40, -1), 4), 'wn': []}})
+            ops.append({'op': 'mkrefs', 'args': {'id': 0, 'members': list(range(len(rows))), 'offset': None}})
+            self.plan = ops[1:]
+            return dict(ops[0], c=c)
         if len(self.ref) < 2 or (len(self.ref) < sw['max_refs'] + 2 and rng.random() < 0.2):
             T_ref = 298.15 + (rng.choice([0.0, 0.0, round(rng.uniform(-2, 2), 2)]) if sw['T_ref_jitter'] else 0.0)
             return {'c': c, 'op': 'mkref', 'args': {'id': len(self.ref), 'desc': self._comp(rng), 'T_ref': T_ref,
